@@ -404,9 +404,10 @@ func (tg *target) verdict(b []byte, o outcome) error {
 	}
 	if limit := uint64(allocA0 + allocA1*len(b)); o.alloc > limit {
 		key := "alloc:" + tg.name
-		if cls := aliasClass(tg.name, b); cls != "" {
-			// offset aliasing (alias_test.go): a recorded finding, matched by class
-			key = "alloc-aliased:" + cls
+		if ex := walkExpansion(tg.name, b); ex.class(tg.name) != "" && ex.explainsAlloc(o.alloc-limit) {
+			// offset aliasing, ranges, zero-size records (alias_test.go): a
+			// recorded finding, matched by class and by amount
+			key = "alloc-" + ex.class(tg.name)
 		}
 		if stats.Known("C02", key) {
 			return nil
@@ -431,9 +432,9 @@ func (tg *target) verdict(b []byte, o outcome) error {
 		}
 		if d > cpuLimit(len(b)) {
 			key := "cpu:" + tg.name
-			if cls := aliasClass(tg.name, b); cls != "" {
-				// the same recorded finding: work, like memory, is spent once per reference
-				key = "alloc-aliased:" + cls
+			if ex := walkExpansion(tg.name, b); ex.class(tg.name) != "" && ex.explainsCPU(d-cpuLimit(len(b))) {
+				// the same recorded finding: work, like memory, is spent once per entry
+				key = "alloc-" + ex.class(tg.name)
 			}
 			if stats.Known("C02", key) {
 				return nil
@@ -442,10 +443,10 @@ func (tg *target) verdict(b []byte, o outcome) error {
 		}
 	} else if o.sweepAlloc > limit {
 		key := "alloc-accessors:" + tg.name
-		if cls := aliasClass(tg.name, b); cls != "" {
-			// (re-encoding a value that holds one decoded copy per reference
+		if ex := walkExpansion(tg.name, b); ex.class(tg.name) != "" && ex.explainsAlloc(o.sweepAlloc-limit) {
+			// (re-encoding a value that holds one decoded copy per entry
 			// allocates in the same proportion)
-			key = "alloc-aliased:" + cls
+			key = "alloc-" + ex.class(tg.name)
 		}
 		if stats.Known("C02", key) {
 			return nil
